@@ -10,6 +10,7 @@ import (
 	"strconv"
 	"strings"
 	"sync"
+	"sync/atomic"
 
 	"verif/core"
 	"verif/ref/cfjs"
@@ -162,6 +163,8 @@ type reducer struct {
 	eng      *engine
 	nativeMk bool
 }
+
+var sampleCtr atomic.Int64
 
 var (
 	canonMu    sync.Mutex
@@ -378,7 +381,7 @@ func (w *worker) do(s Spec, rank int64) bool {
 		w.r.NontrivialN(1)
 	}
 	w.r.OutcomeH(core.HashString(exp.Outcome + "|" + strings.Join(exp.Events, " ")))
-	if rank >= 0 && w.r.WantSample(rank) && rank > 64 {
+	if n := sampleCtr.Add(1); n&(n-1) == 0 { // the 1st, 2nd, 4th, 8th, ... valid program of the run
 		w.r.Sample(map[string]interface{}{"depth": len(s.Frames), "rank": rank, "path": s.String(), "src": src, "log": strings.Join(exp.Events, " "), "outcome": exp.Outcome})
 	}
 	if class := diffClass(exp, ri.res); class != "" {
@@ -637,7 +640,7 @@ func replay(r *core.Run, raw json.RawMessage) {
 // ---------- exploration ----------
 
 func run(r *core.Run) {
-	r.Assume("ref/cfjs implements ECMA-262 completion-record semantics for the mini-language (trusted base, ~600 lines); its printer and the prelude helpers (mk, drive, str) are part of it")
+	r.Assume("ref/cfjs implements ECMA-262 completion-record semantics for the mini-language (trusted base, ~1100 lines with printer and prelude); its printer and the prelude helpers (mk, drive, str) are part of it")
 	r.Assume("loops run 2 iterations, instrumented iterators deliver 2 elements; thrown values are small integers or engine-created TypeErrors (compared by class, not message)")
 	r.Assume("runtimes: SetMaxCallStackSize(120), 300000-instruction budget; a runtime that is not idle after a program is discarded (C03/C14 cover reuse)")
 	names := make([]string, len(frames))
